@@ -270,6 +270,25 @@ func wfQValue(s string) bool {
 	return prev != '\\'
 }
 
+// every double quote and the end of the text is preceded by an even number of backslashes
+func wfEsc(s string) bool {
+	run := 0
+	for i := 0; i < len(s); i++ {
+		switch s[i] {
+		case '"':
+			if run%2 == 1 {
+				return false
+			}
+			run = 0
+		case '\\':
+			run++
+		default:
+			run = 0
+		}
+	}
+	return run%2 == 0
+}
+
 func maybeRemoveQuotes(s string) string {
 	if len(s) < 2 {
 		return s
@@ -552,7 +571,7 @@ func (g *gen) bytesFrom(alpha string, n int, nonASCII bool) string {
 func (g *gen) opArg() string {
 	for {
 		s := g.bytesFrom(argAlpha, g.r.Intn(14), true)
-		if strings.TrimSpace(s) != s || strings.Contains(s, "\\\"") || strings.HasSuffix(s, "\\") {
+		if strings.TrimSpace(s) != s || !wfEsc(s) {
 			continue
 		}
 		return s
